@@ -145,7 +145,23 @@ pub fn exec(rec: &Value, _st: &mut State) -> Value {
         "msample" => {
             let verts: Vec<Point3> = gvvi(rec, "vpos").iter().map(|p| p3(p, s)).collect();
             let faces: Vec<[u32; 3]> = gvvi(rec, "faces").iter().map(|f| [f[0] as u32, f[1] as u32, f[2] as u32]).collect();
-            let mesh = Mesh::new(verts, faces, false);
+            // optional `split` [vertices, faces]: the mesh is assembled in two steps - the first part is built and SAMPLED (same kind,
+            // result discarded), then the rest is appended to the same object - and sampled after that
+            let mesh = match rec.get("split").and_then(|v| v.as_array()) {
+                None => Mesh::new(verts, faces, false),
+                Some(sp) => {
+                    let (nv, nf) = (sp[0].as_u64().unwrap() as usize, sp[1].as_u64().unwrap() as usize);
+                    let mut a = Mesh::new(verts[..nv].to_vec(), faces[..nf].to_vec(), false);
+                    let b = Mesh::new(verts[nv..].to_vec(), faces[nf..].iter().map(|f| [f[0] - nv as u32, f[1] - nv as u32, f[2] - nv as u32]).collect(), false);
+                    let _ = match gs(rec, "kind") {
+                        "uniform" => a.sample_uniform(50),
+                        "dense" => a.sample_dense(gi(rec, "h") as f64 / 2.0 * s),
+                        _ => a.sample_poisson(gi(rec, "h") as f64 / 2.0 * s),
+                    };
+                    a.append(&b).expect("append");
+                    a
+                }
+            };
             // nd: how many candidates sample_poisson starts from (its documented first step: dense sampling at half the radius)
             let mut nd = 0usize;
             let mut dense_ties = false;
